@@ -3,6 +3,7 @@ C13 — Manifest writers change exactly the requested requirements.
 Property theorems only; helper lemmas live in `Scalibr.Proofs.NpmWriter` / `Scalibr.Proofs.PomProps`.
 -/
 import Scalibr.Proofs.NpmWriter
+import Scalibr.Proofs.NpmFile
 import Scalibr.Proofs.PomProps
 import Scalibr.Proofs.PomWrite
 import Scalibr.Proofs.PomTokens
@@ -20,14 +21,15 @@ yields a document whose requirements, as `Read` computes them (alias parsing and
 prod → optional → dev cascade included), are the original requirements with the updated versions
 substituted; keys and their order are unchanged and every entry whose key no update addresses is
 untouched.  No bound on sections, names or the number of updates. -/
-theorem C13_npm_roundtrip (d d' : Doc) (us : List Up) (hwf : WFdoc d) (hu : ∀ u ∈ us, WFup u = true)
+theorem C13_npm_roundtrip_partial (d d' : Doc) (us : List Up) (hwf : WFdoc d) (hu : ∀ u ∈ us, WFup u = true)
     (h : write d us = .ok d') :
     requirements d' = substitute (requirements d) us ∧ sameOutside us d d' := by
   have := write_eq_spec d d' us hwf h
   subst this
   exact ⟨requirements_applyAll us hu d, sameOutside_applyAll us d⟩
 
-/-- With no updates the document is returned as it is. -/
+/-- With no updates the three sections are returned as they are (`rfl` on the section model; the statement about
+the FILE — every byte — is `C13_npm_bytes_identity` below). -/
 theorem C13_npm_identity (d : Doc) : write d [] = .ok d := rfl
 
 /-- No silent success, step by step: when `Write` succeeds, every update of the list was processed on
@@ -59,7 +61,7 @@ either makes `Write` fail or shows up when the written file is read back. -/
 theorem C13_npm_present_applied (d d' : Doc) (u : Up) (hwf : WFdoc d) (hu : WFup u = true)
     (hp : present u d) (h : write d [u] = .ok d') :
     ∃ r ∈ requirements d', r.name = u.name ∧ r.knownAs = u.knownAs ∧ r.ver = u.to := by
-  obtain ⟨hr, _⟩ := C13_npm_roundtrip d d' [u] hwf (by simpa using hu) h
+  obtain ⟨hr, _⟩ := C13_npm_roundtrip_partial d d' [u] hwf (by simpa using hu) h
   obtain ⟨r, hr1, hr2⟩ := hp
   refine ⟨substReq u r, ?_, ?_⟩
   · rw [hr]; simp only [substitute, List.foldl]; exact List.mem_map_of_mem hr1
@@ -89,6 +91,75 @@ theorem C13_npm_alias_at_witness :
     ∃ d', write d [u] = .ok d' ∧ requirements d' ≠ substitute (requirements d) [u] := by
   refine ⟨_, rfl, by decide⟩
 
+/-- An update for a key that NO section holds is outside the property's quantifier ("updates addressed to
+requirements present in the file"): `Write` answers ok and changes nothing — stated as a witness. -/
+theorem C13_npm_absent_key_witness :
+    write exDoc [⟨"absent.pkg".toList, none, "1.0.0".toList, "2.0.0".toList⟩] = .ok exDoc := by decide
+
+/-! ### the file: bytes outside the edited values -/
+
+/-- package.json, span level.  For a file whose sections have unique keys, a successful `Write` yields the SAME
+sequence of spans: every span the writer does not address (all bytes between the values: punctuation, white
+space, keys, other members) is in place and untouched, and every value span of the three dependency sections
+holds its entry's value after all updates (`substAll`: the update's new value where key and old value matched,
+the old value otherwise).  Hence the output bytes are the input bytes with exactly those value spans replaced.
+Trusted: `sjson.SetBytes` rewrites only the addressed value span (= `putBack`; compared byte-wise per case). -/
+theorem C13_npm_bytes_partial (f f' : File) (us : List Up) (hwf : WFdoc (docOf f)) (h : writeFile f us = some f')
+    (quote : Str → Str) :
+    f' = f.map (mapSeg (substAll us)) ∧ bytes quote f' = bytes quote (f.map (mapSeg (substAll us))) := by
+  have := writeFile_eq f f' us hwf h
+  exact ⟨this, by rw [this]⟩
+
+/-- … in particular a value span no update addresses (by key and old value) keeps its bytes -/
+theorem C13_npm_bytes_untouched_partial (f f' : File) (us : List Up) (hwf : WFdoc (docOf f)) (h : writeFile f us = some f')
+    (hno : ∀ s k v, Seg.val s k v ∈ f → ∀ u ∈ us, ¬ (k = wkey u ∧ v = origVer u)) (quote : Str → Str) :
+    bytes quote f' = bytes quote f := by
+  rw [(C13_npm_bytes_partial f f' us hwf h quote).1]
+  apply bytes_map_raw
+  intro s k v hm
+  have hn := hno s k v hm
+  clear h hwf hno hm
+  unfold substAll
+  induction us with
+  | nil => rfl
+  | cons u us ih =>
+    simp only [List.foldl]
+    have : substEntry u (k, v) = (k, v) := by
+      unfold substEntry
+      have := hn u (by simp)
+      simp [this]
+    rw [this]
+    exact ih (fun w hw => hn w (by simp [hw]))
+
+/-- With no updates the bytes written are the bytes read — for every file, no hypothesis. -/
+theorem C13_npm_bytes_identity (f : File) (quote : Str → Str) :
+    writeFile f [] = some f ∧ ∀ f', writeFile f [] = some f' → bytes quote f' = bytes quote f := by
+  have h : writeFile f [] = some f := by
+    unfold writeFile
+    simp only [write]
+    have := putBack_map id f
+    simp only [List.map_id] at this
+    have hid : ∀ g : File, g.map (mapSeg id) = g := by
+      intro g
+      induction g with
+      | nil => rfl
+      | cons x g ih => cases x <;> simp [mapSeg, ih]
+    simp only [docOf]
+    rw [this, hid]
+  refine ⟨h, ?_⟩
+  intro f' hf
+  rw [h] at hf
+  injection hf with hf
+  rw [← hf]
+
+/-- non-vacuity: two spans are rewritten, everything else (incl. the noise section) stays -/
+example : writeFile
+    [.raw "{\"devDependencies\": {\"socket.io\": ".toList, .val .dev "socket.io".toList "^1.0.0".toList, .raw "},\n \"peerDependencies\": {\"socket.io\": \"^1.0.0\"},\n \"dependencies\": {\"socket.io\": ".toList,
+     .val .prod "socket.io".toList "^1.0.0".toList, .raw ", \"x\": ".toList, .val .prod "x".toList "1".toList, .raw "}}".toList]
+    [⟨"socket.io".toList, none, "^1.0.0".toList, "^2.0.0".toList⟩]
+  = some [.raw "{\"devDependencies\": {\"socket.io\": ".toList, .val .dev "socket.io".toList "^2.0.0".toList, .raw "},\n \"peerDependencies\": {\"socket.io\": \"^1.0.0\"},\n \"dependencies\": {\"socket.io\": ".toList,
+     .val .prod "socket.io".toList "^2.0.0".toList, .raw ", \"x\": ".toList, .val .prod "x".toList "1".toList, .raw "}}".toList] := by decide
+
 end Scalibr.Npm
 
 namespace Scalibr.Pom
@@ -115,10 +186,13 @@ theorem C13_pom_props_fixed_witnesses :
     gen "1.0.${rev}".toList "2".toList = .no ∧ gen "1.${x}.5".toList "1.5".toList = .no ∧
     gen "${a}-jre".toList "9".toList = .no := by decide
 
-/-- Abstract pom writer: with no updates nothing changes. -/
-theorem C13_pom_identity (pom : Pom) : write pom [] = pom := by
-  unfold write buildPatches
-  simp only [List.foldl, newDeps, List.filter_nil, List.map_nil, List.append_nil]
+/-- the requirements of what `Write` produced (nothing is produced when it returns an error) -/
+def reqsAfter (pom : Pom) (us : List Upd) : Option (List Req) := (write pom us).map requirements
+
+/-- Abstract pom writer: with no updates it succeeds and nothing changes. -/
+theorem C13_pom_identity (pom : Pom) : write pom [] = some pom := by
+  unfold write buildPatches buildFrom applyPatches
+  simp only [Option.map, newDeps, List.filter_nil, List.map_nil, List.append_nil]
   have h1 : pom.deps.map (applyDep ⟨[], []⟩) = pom.deps := by
     have : pom.deps.map (applyDep ⟨[], []⟩) = pom.deps.map id := by
       apply List.map_congr_left; intro d _; unfold applyDep; simp
@@ -129,43 +203,77 @@ theorem C13_pom_identity (pom : Pom) : write pom [] = pom := by
     simpa using this
   rw [h1, h2]
 
+/-- the writer's error return: an update whose Name is not `groupId:artifactId` makes `Write` fail (no file is
+written) — whatever else the update list holds before it -/
+theorem C13_pom_invalid_name_error (pom : Pom) (u : Upd) (us : List Upd) (h : u.ga = none) :
+    write pom (u :: us) = none := by
+  simp [write, buildPatches, buildFrom, buildPatch1, h]
+
 /-
 Full-strength statement for the pom.xml writer at requirement level:
-    requirements (write pom us) = substitute (requirements pom) us
-for every pom and every set of updates addressed to requirements present in it.  It is FALSE for the
-unchanged code in the situations of `C13_pom_class_witnesses` and `C13_pom_other_profile_witness` (known findings C13/pom-…); the
-general theorem in force is `C13_pom_literal_roundtrip`, the remaining cases (property-based versions,
-several updates) are covered by the correspondence stream with this very statement as its oracle.
+    write pom us = some pom' → requirements pom' = substitute (requirements pom) us
+for every pom and every set of updates addressed to requirements present in it ("re-read = substitute", which
+contains "never reports success without having applied an update").  It is FALSE for the unchanged code in the
+situations of `C13_pom_class_witnesses` and `C13_pom_other_profile_witness` (known findings C13/pom-…).  In force:
+`C13_pom_literal_roundtrip_partial` / `C13_pom_no_silent_success_partial` (any number of updates on the literal
+fragment); property-based versions, parents and plugins are covered by the correspondence stream with this very
+statement as its oracle (`Spec.WFcase` = no known class).
 -/
 
-/-- pom.xml round trip, literal fragment: all versions in the file are literals, keys are unique over
-the whole file, and one update addresses an existing entry (by
-key, origin and old version) with a literal new version.  Then re-reading the written pom gives the
-original requirements with that version substituted.  Any number of dependencies, sections, profiles. -/
-theorem C13_pom_literal_roundtrip (pom : Pom) (u : Upd) (d : Dep) (c : LiteralCase pom u d) :
-    requirements (write pom [u]) = substitute (requirements pom) [u] :=
-  C13_pom_literal_roundtrip_aux pom u d c
+/-- pom.xml round trip, literal fragment, ANY NUMBER of updates: all versions in the file are literals, dependency
+keys are unique over the whole file, the updates address pairwise different keys, and each addresses an existing
+entry (by key, origin and old version) under a well-formed name with a literal new version.  Then `Write`
+succeeds, re-reading the written pom gives the original requirements with the versions substituted, exactly the
+addressed entries changed, and no property was touched.  Any number of dependencies, sections, profiles. -/
+theorem C13_pom_literal_roundtrip_partial (pom : Pom) (us : List Upd) (c : LiteralCases pom us) :
+    ∃ pom', write pom us = some pom' ∧ requirements pom' = substitute (requirements pom) us ∧
+      pom'.deps = pom.deps.map (updated us) ∧ pom'.props = pom.props := by
+  refine ⟨_, write_literal pom us c, ?_⟩
+  exact roundtrip_literal pom _ us c (write_literal pom us c)
+
+/-- No silent success on the literal fragment: when `Write` succeeds, the entry every update addresses holds the
+update's new version. -/
+theorem C13_pom_no_silent_success_partial (pom pom' : Pom) (us : List Upd) (c : LiteralCases pom us)
+    (h : write pom us = some pom') (u : Upd) (hu : u ∈ us) :
+    ∃ d ∈ pom.deps, d.key = u.key ∧ { d with ver := u.to } ∈ pom'.deps := by
+  obtain ⟨_, _, d, hm, hk, _, _, _⟩ := c.each u hu
+  refine ⟨d, hm, hk, ?_⟩
+  rw [(roundtrip_literal pom pom' us c h).2.1]
+  have : updated us d = { d with ver := u.to } := by
+    unfold updated
+    cases hf : us.find? (fun w => w.key = d.key) with
+    | none =>
+      rw [List.find?_eq_none] at hf
+      exact absurd (by simp [hk]) (hf u hu)
+    | some w =>
+      have hw := List.mem_of_find?_eq_some hf
+      have hwk := List.find?_some hf
+      simp only [decide_eq_true_eq] at hwk
+      have : w = u := upd_key_unique us c.ukeys u w hu hw (by rw [hwk, hk])
+      rw [this]
+  rw [← this]
+  exact List.mem_map_of_mem hm
 
 /-- the two classes in which the unchanged pom.xml writer still leaves the property, on the model: an
 update addressed to dependencyManagement while `<dependencies>` holds the same key, and a property shared
-with another dependency. -/
+with another dependency.  In both `Write` succeeds. -/
 theorem C13_pom_class_witnesses :
     (let pom : Pom := ⟨[⟨[], ['x'], ['y'], [], [], "1.0".toList, false⟩, ⟨sManagement, ['x'], ['y'], [], [], "2.0".toList, false⟩], [], "1.0".toList⟩
-     let us : List Upd := [⟨['x'], ['y'], [], [], sManagement, "2.0".toList, "2.5".toList⟩]
-     requirements (write pom us) ≠ substitute (requirements pom) us ∧ feature pom us = some "C13/pom-origin-ignored") ∧
+     let us : List Upd := [⟨"x:y".toList, [], [], sManagement, "2.0".toList, "2.5".toList⟩]
+     (write pom us).isSome = true ∧ reqsAfter pom us ≠ some (substitute (requirements pom) us) ∧ feature pom us = some "C13/pom-origin-ignored") ∧
     (let pom : Pom := ⟨[⟨[], ['x'], ['y'], [], [], "${v}".toList, false⟩, ⟨[], ['x'], ['z'], [], [], "${v}".toList, false⟩], [⟨[], ['v'], "1.0".toList⟩], "1.0".toList⟩
-     let us : List Upd := [⟨['x'], ['y'], [], [], [], "1.0".toList, "1.5".toList⟩]
-     requirements (write pom us) ≠ substitute (requirements pom) us ∧ feature pom us = some "C13/pom-shared-property") := by
+     let us : List Upd := [⟨"x:y".toList, [], [], [], "1.0".toList, "1.5".toList⟩]
+     (write pom us).isSome = true ∧ reqsAfter pom us ≠ some (substitute (requirements pom) us) ∧ feature pom us = some "C13/pom-shared-property") := by
   decide
 
 /-- known finding C13/pom-property-other-profile, on the model: a dependency in profile p1 with version
 `${w}`, `w` defined only in profile p2.  The by-name test of fix f5d17448 passes, the patch is recorded
-under property origin "" where nothing holds `w`, and the written pom reads back unchanged. -/
+under property origin "" where nothing holds `w`; `Write` reports success and the written pom is the input. -/
 theorem C13_pom_other_profile_witness :
     let pom : Pom := ⟨[⟨[], ['x'], ['m'], [], [], "1.0".toList, false⟩, ⟨"profile@p1".toList, ['x'], ['q'], [], [], "${w}".toList, false⟩],
                       [⟨"profile@p2".toList, ['w'], "1.0".toList⟩], "1.0".toList⟩
-    let us : List Upd := [⟨['x'], ['q'], [], [], [], "${w}".toList, "2.0".toList⟩]
-    write pom us = pom ∧ requirements (write pom us) ≠ substitute (requirements pom) us ∧
+    let us : List Upd := [⟨"x:q".toList, [], [], [], "${w}".toList, "2.0".toList⟩]
+    write pom us = some pom ∧ reqsAfter pom us ≠ some (substitute (requirements pom) us) ∧
     feature pom us = some "C13/pom-property-other-profile" := by
   decide
 
@@ -173,23 +281,30 @@ theorem C13_pom_other_profile_witness :
 (f5d17448), a repeated placeholder with different values (d4dd80ce) now read back as substituted. -/
 theorem C13_pom_fixed_witnesses :
     (let pom : Pom := ⟨[⟨[], ['x'], ['y'], [], [], "1.0".toList, true⟩], [], "1.0".toList⟩
-     let us : List Upd := [⟨['x'], ['y'], [], [], [], "1.0".toList, "1.5".toList⟩]
-     requirements (write pom us) = substitute (requirements pom) us) ∧
+     let us : List Upd := [⟨"x:y".toList, [], [], [], "1.0".toList, "1.5".toList⟩]
+     reqsAfter pom us = some (substitute (requirements pom) us)) ∧
     (let pom : Pom := ⟨[⟨[], ['x'], ['y'], [], [], "${project.version}".toList, false⟩], [], "1.0".toList⟩
-     let us : List Upd := [⟨['x'], ['y'], [], [], [], "1.0".toList, "1.5".toList⟩]
-     requirements (write pom us) = substitute (requirements pom) us) ∧
+     let us : List Upd := [⟨"x:y".toList, [], [], [], "1.0".toList, "1.5".toList⟩]
+     reqsAfter pom us = some (substitute (requirements pom) us)) ∧
     (let pom : Pom := ⟨[⟨[], ['x'], ['z'], [], [], "${v}-${v}".toList, false⟩], [⟨[], ['v'], "1.0".toList⟩], "1.0".toList⟩
-     let us : List Upd := [⟨['x'], ['z'], [], [], [], "1.0-1.0".toList, "1.0-2.0".toList⟩]
-     requirements (write pom us) = substitute (requirements pom) us) := by
+     let us : List Upd := [⟨"x:z".toList, [], [], [], "1.0-1.0".toList, "1.0-2.0".toList⟩]
+     reqsAfter pom us = some (substitute (requirements pom) us)) := by
   decide
 
-/-- `LiteralCase` is satisfiable on a pom with a profile and dependencyManagement. -/
-example : LiteralCase
+/-- `LiteralCases` is satisfiable on a pom with a profile and dependencyManagement, with two updates. -/
+example : LiteralCases
     ⟨[⟨[], ['x'], ['y'], [], [], "1.0".toList, false⟩, ⟨sManagement, ['x'], ['m'], [], [], "2.0".toList, false⟩,
       ⟨"profile@p1".toList, ['x'], ['q'], [], [], "3.0".toList, false⟩], [⟨[], ['v'], "9".toList⟩], "1.0".toList⟩
-    ⟨['x'], ['m'], [], [], sManagement, "2.0".toList, "2.5".toList⟩
-    ⟨sManagement, ['x'], ['m'], [], [], "2.0".toList, false⟩ := by
-  constructor <;> decide
+    [⟨"x:m".toList, [], [], sManagement, "2.0".toList, "2.5".toList⟩, ⟨"x:y".toList, [], [], [], "1.0".toList, "1.1".toList⟩] := by
+  constructor
+  · decide
+  · decide
+  · decide
+  · intro u hu
+    simp only [List.mem_cons, List.mem_nil_iff, or_false] at hu
+    rcases hu with rfl | rfl
+    · exact ⟨by decide, by decide, ⟨sManagement, ['x'], ['m'], [], [], "2.0".toList, false⟩, by decide, by decide, by decide, by decide, by decide⟩
+    · exact ⟨by decide, by decide, ⟨[], ['x'], ['y'], [], [], "1.0".toList, false⟩, by decide, by decide, by decide, by decide, by decide⟩
 
 /-! Non-vacuity: prefix + placeholder + suffix, and two placeholders. -/
 example : gen "1.${a}.${b}-jre".toList "1.22.333-jre".toList =
